@@ -46,6 +46,7 @@ type layer struct {
 
 var layers = []layer{
 	{Name: "L4", Cases: l4Cases, Run: func(rec vlib.Recorder, cs any) { runL4(rec.(*vlib.Check), cs.(*dispCase)) }, Workers: 8, Background: true, First: func() int { return len(canonicalDisp()) }},
+	{Name: "L6", Cases: l6Cases, Run: func(rec vlib.Recorder, cs any) { runL6(rec.(*vlib.Check), cs.(*histCase)) }, Workers: 5, Background: true, First: func() int { return len(canonicalHist()) }},
 	{Name: "L5", Cases: l5Cases, Run: func(rec vlib.Recorder, cs any) { runL5(rec.(*vlib.Check), cs.(*ldCase)) }, Workers: 4, Background: true, First: func() int { return len(l5Platforms) }},
 	{Name: "L1", Cases: l1Cases, Run: func(rec vlib.Recorder, cs any) { runL1(rec, cs.(*geomCase)) }},
 	{Name: "L2", Cases: l2Cases, Run: func(rec vlib.Recorder, cs any) { runL2(rec, cs.(*regCase)) }},
@@ -63,7 +64,12 @@ func replay(c *vlib.Check, b []byte) {
 		fmt.Println("cannot parse replay:", err)
 		os.Exit(2)
 	}
-	if strings.Contains(string(f.Witness.Case), "\"l5\":true") || strings.Contains(string(f.Witness.Case), "\"l5\": true") {
+	if strings.Contains(string(f.Witness.Case), "\"l6\":true") || strings.Contains(string(f.Witness.Case), "\"l6\": true") {
+		var d histCase
+		_ = json.Unmarshal(f.Witness.Case, &d)
+		runL6(c, &d)
+		l6Cleanup()
+	} else if strings.Contains(string(f.Witness.Case), "\"l5\":true") || strings.Contains(string(f.Witness.Case), "\"l5\": true") {
 		var d ldCase
 		_ = json.Unmarshal(f.Witness.Case, &d)
 		runL5(c, &d)
@@ -93,6 +99,10 @@ func main() {
 	if os.Getenv("C08_L4_DUMP") != "" { // development aid: the counting kernel as the simulator's decoder sees it
 		lines, err := kern.Disassemble(countKernel(7, 16384, 128))
 		fmt.Println(strings.Join(lines, "\n"), err)
+		return
+	}
+	if vlib.IsChild() && len(os.Args) > 2 && os.Args[1] == "l6child" {
+		l6Child()
 		return
 	}
 	if vlib.IsChild() && len(os.Args) > 2 && os.Args[1] == "l5child" {
@@ -153,11 +163,14 @@ func main() {
 	bg.Wait()
 	l4Cleanup()
 	l5Cleanup()
+	l6Cleanup()
 	c.Finish(vlib.FinishOpts{
 		Rule: "case = dispatch geometry (grid 1-3 D, work-group size with product <= 1024, optional work-group filter, iteration by NextWG or by Skip partitions), " +
 			"generated from VERIF_SEED plus a fixed canonical battery; every enabled lane of every wavefront of every produced work-group is decoded the way both " +
 			"compute units do (work-item FirstWiFlatID+lane, decomposed by the work-group's SizeX/SizeY); L3 cases take the filters out of the LaunchKernelReqs of a real driver; " +
 			"non-trivial = distinct geometry that has a partial work-group or a non-power-of-two work-group size; " +
+			"L6 (keys C08|L4|history|...) case = history of 5-12 launches of the 3-D counting kernel in ONE simulation, alternating between unified multi-GPU devices (2-4 members, devices sharing members; filtered LaunchKernelReqs) " +
+			"and plain launches on member / non-member GPUs (no filter), small and large grids alternating, 1-3 D, serial or two queues per device, emulation and r9nano timing platform with 2-4 GPUs, dispatchers rebuilt to every algorithm; " +
 			"L5 case = 5-10 launches (1-3 D, several work-group layers in y and z) of a 3-D counting kernel whose code object is loaded from an ELF image with the real loader, on emu-gcn3 / timing-r9nano (V3 image) and emu-cdna3 / timing-mi300a (V5 image); " +
 			"L4 case = 2-5 launches of a counting kernel (out[gid] += 1 after a per-work-group delay loop) through the real driver on the r9nano timing platform (1-2 GPUs, 1-2 queues) whose command processors' " +
 			"dispatchers were rebuilt to partition / round-robin / greedy (or left as built); the final buffer must hold init+1 for every work-item of the grid and init behind it, and the MapWGReqs of every launch " +
@@ -169,6 +182,7 @@ func main() {
 			"loader path (L2 cases 'via_loader', L5): the code object comes from insts.LoadKernelCodeObjectFromBytes applied to an ELF image written by the harness (amd_kernel_code_t header in .text for V2/V3; 64-byte kernel descriptor in .rodata + '<name>.kd' symbol for V5); " +
 				"the expectation is taken from the image's enable bits. V5 images always enable kernarg pointer and work-group id x and y and no other user SGPR, which is the loader's documented normalisation ('work-group id z: leave as-is'); the loader may add id registers, it must not drop one the image enables. " +
 				"L5 duplicates that run concurrently in timing mode can lose an increment (non-atomic read-modify-write), the work-items they replace are still seen as never executed",
+			"L6: a MapWGReq is attributed to a launch by its packet's grid triple (unique within a case); a unified launch may use its member GPUs only, a plain launch its GPU only; buffers of a unified launch are allocated on the unified device",
 			"L4: a work-item executed k times adds k to its own element (read-modify-write on the work-item's own dword, no other writer); a MapWGReq is attributed to a launch by the GridSizeX of its packet (unique within a case); " +
 				"partition p of a launch holds work-groups [p*k, (p+1)*k) with k = ceil(NumWG/64) and belongs to the p-th registered compute unit (partitionAlgorithm.StartNewKernel, read); " +
 				"the dispatchers are replaced through cp.VerifRebuildDispatchers and the platform's compute units registered again in their original order; a launch that leaves the engine idle is reported as never completing",
@@ -188,6 +202,9 @@ func main() {
 			"l5_cases_completed": 8, "l5_launches_v3_emu": 7, "l5_launches_v3_timing": 7, "l5_launches_v5_emu": 7, "l5_launches_v5_timing": 7,
 			"l5_v5_launches_several_wg_layers_in_z": 6, "l5_v5_launches_several_wg_layers_in_y": 6,
 			"l5_v3_launches_several_wg_layers_in_z": 6, "l5_v3_launches_several_wg_layers_in_y": 6,
+			"l6_cases_completed": 10, "l6_launches": 50, "l6_filtered_launches_on_several_gpus": 5,
+			"l6_unfiltered_launches_after_filtered_on_same_gpu_emu": 6, "l6_unfiltered_launches_after_filtered_on_same_gpu_timing": 6,
+			"l6_unfiltered_launches_after_filtered_with_larger_grid_emu": 3, "l6_unfiltered_launches_after_filtered_with_larger_grid_timing": 4,
 			"l4_cases_completed": 12, "l4_launches": 25, "l4_launches_partition": 15, "l4_launches_round-robin": 2, "l4_work_items_checked": 500000,
 			"l4_map_wg_reqs": 5000, "l4_partition_steals": 300, "l4_canonical_partition_steals": 150, "l4_partition_launches_with_steals": 10,
 		},
